@@ -28,6 +28,8 @@ pub struct Emb {
     pub fam: Fam,
     base: u128,  // value of lo(0) in "units"
     scale: u128, // width of one model point in units
+    /// Some(top): cell 0 starts at 0 and cell `top` ends at the maximum of the unit space
+    full: Option<u64>,
 }
 
 const M96: u128 = (1u128 << 96) - 1;
@@ -35,9 +37,13 @@ const M96: u128 = (1u128 << 96) - 1;
 impl Emb {
     /// units -> concrete (AS: u32 as u128; v4: the 32-bit value; v6: u128)
     fn lo_u(&self, p: u64) -> u128 {
+        if self.full.is_some() && p == 0 { return 0; }
         self.base + p as u128 * self.scale
     }
     fn hi_u(&self, p: u64) -> u128 {
+        if self.full == Some(p) {
+            return match self.fam { Fam::V6 => u128::MAX, _ => u32::MAX as u128 };
+        }
         self.base + p as u128 * self.scale + (self.scale - 1)
     }
     pub fn lo(&self, p: u64) -> u128 {
@@ -64,26 +70,33 @@ impl Emb {
     }
 }
 
+/// Embeddings are tilings of a stretch of the number space by `top + 1` contiguous cells. The `*_full` ones stretch the first cell
+/// down to 0 and the last cell up to the maximum, so that the model block [0, top] is the whole space.
 pub fn embeddings(top: u64) -> Vec<Emb> {
     let n = top as u128 + 1;
     let w = (64 - (top).leading_zeros()) as u32; // bits needed for 0..=top
     let w = w.max(1);
     let slots = 1u128 << w;
     vec![
-        Emb { name: "as_lo", fam: Fam::As, base: 0, scale: 1 },
-        Emb { name: "as_hi", fam: Fam::As, base: (1u128 << 32) - n, scale: 1 },
-        Emb { name: "as_scaled", fam: Fam::As, base: 64496, scale: 1000 },
-        Emb { name: "as_scaled_hi", fam: Fam::As, base: (1u128 << 32) - n * 65536, scale: 65536 },
-        Emb { name: "v4_top", fam: Fam::V4, base: 0, scale: 1u128 << (32 - w) },
-        Emb { name: "v4_top_hi", fam: Fam::V4, base: (slots - n) << (32 - w), scale: 1u128 << (32 - w) },
-        Emb { name: "v4_bot", fam: Fam::V4, base: 0x0A00_0000, scale: 1 },
-        Emb { name: "v4_bot_hi", fam: Fam::V4, base: (1u128 << 32) - n, scale: 1 },
-        Emb { name: "v4_mid", fam: Fam::V4, base: 0xC000_0200, scale: 16 },
-        Emb { name: "v6_top", fam: Fam::V6, base: 0, scale: 1u128 << (128 - w) },
-        Emb { name: "v6_top_hi", fam: Fam::V6, base: (slots - n) << (128 - w), scale: 1u128 << (128 - w) },
-        Emb { name: "v6_bot", fam: Fam::V6, base: 0x2001_0db8u128 << 96, scale: 1 },
-        Emb { name: "v6_bot_hi", fam: Fam::V6, base: u128::MAX - (n - 1), scale: 1 },
-        Emb { name: "v6_mid", fam: Fam::V6, base: 0x2001_0db8u128 << 96, scale: 1u128 << 64 },
+        Emb { name: "as_lo", fam: Fam::As, base: 0, scale: 1, full: None },
+        Emb { name: "as_hi", fam: Fam::As, base: (1u128 << 32) - n, scale: 1, full: None },
+        Emb { name: "as_scaled", fam: Fam::As, base: 64496, scale: 1000, full: None },
+        Emb { name: "as_scaled_hi", fam: Fam::As, base: (1u128 << 32) - n * 65536, scale: 65536, full: None },
+        Emb { name: "v4_top", fam: Fam::V4, base: 0, scale: 1u128 << (32 - w), full: None },
+        Emb { name: "v4_top_hi", fam: Fam::V4, base: (slots - n) << (32 - w), scale: 1u128 << (32 - w), full: None },
+        Emb { name: "v4_bot", fam: Fam::V4, base: 0x0A00_0000, scale: 1, full: None },
+        Emb { name: "v4_bot_hi", fam: Fam::V4, base: (1u128 << 32) - n, scale: 1, full: None },
+        Emb { name: "v4_mid", fam: Fam::V4, base: 0xC000_0200, scale: 16, full: None },
+        Emb { name: "v6_top", fam: Fam::V6, base: 0, scale: 1u128 << (128 - w), full: None },
+        Emb { name: "v6_top_hi", fam: Fam::V6, base: (slots - n) << (128 - w), scale: 1u128 << (128 - w), full: None },
+        Emb { name: "v6_bot", fam: Fam::V6, base: 0x2001_0db8u128 << 96, scale: 1, full: None },
+        Emb { name: "v6_bot_hi", fam: Fam::V6, base: u128::MAX - (n - 1), scale: 1, full: None },
+        Emb { name: "v6_mid", fam: Fam::V6, base: 0x2001_0db8u128 << 96, scale: 1u128 << 64, full: None },
+        // IPv4-mapped addresses: the text form of these ends in a dotted quad
+        Emb { name: "v6_mapped", fam: Fam::V6, base: 0xffff_0a00_0000u128, scale: 1, full: None },
+        Emb { name: "as_full", fam: Fam::As, base: 0x8000_0000, scale: 1, full: Some(top) },
+        Emb { name: "v4_full", fam: Fam::V4, base: 0x8000_0000, scale: 2, full: Some(top) },
+        Emb { name: "v6_full", fam: Fam::V6, base: 1u128 << 127, scale: 1u128 << 64, full: Some(top) },
     ]
 }
 
